@@ -1,6 +1,19 @@
 class HTTPError(Exception):
     """Base HTTP error with status code and message."""
 
+    def __new__(cls, *args: object, **kwargs: object) -> "HTTPError":
+        # Raising the base class for a 4xx/5xx status yields the matching subclass, so that the documented
+        # `except ClientError` / `except ServerError` handlers also catch errors raised generically by the
+        # transport and by the catch-all branch of generated endpoint methods.
+        if cls is HTTPError:
+            status_code = kwargs.get("status_code", args[0] if args else None)
+            if isinstance(status_code, int) and not isinstance(status_code, bool):
+                if 400 <= status_code < 500:
+                    cls = ClientError
+                elif 500 <= status_code < 600:
+                    cls = ServerError
+        return super().__new__(cls)
+
     def __init__(self, status_code: int, message: str, response: object | None = None) -> None:
         super().__init__(f"{status_code}: {message}")
         self.status_code = status_code
